@@ -383,6 +383,8 @@ class World:
              ('assign', t0): constructed with threshold t0, then `mpc.threshold = t` before start() (as demos/parallelsort.py does);
              ('session', t0): a complete earlier session (start, warm-up program, shutdown) at threshold t0 on the same Runtime objects,
                               then `mpc.threshold = t` and the session that is observed;
+             ('restart', t): a complete earlier session at the same threshold, then start() again without touching the threshold (a program that
+                              runs two sessions in one process);
              'auto': one of the above (or none) chosen pseudo-randomly from the seed.
            The monitors only ever see the observed session."""
         global _W
@@ -399,6 +401,8 @@ class World:
                 history = ('assign', hr.choice(others))
             elif r < 0.35:
                 history = ('session', hr.choice(others + [x for x in others if x > t] * 3 + [t]))       # an earlier session at a higher threshold is the interesting direction
+            elif r < 0.42:
+                history = ('restart', t)
             else:
                 history = None
         self.history = history
@@ -571,7 +575,7 @@ class World:
             mpc = ns.proxy
             h = self.history
             if h is not None and wrap:
-                if h[0] == 'session':
+                if h[0] in ('session', 'restart'):
                     await mpc.start()
                     await _warmup(mpc, pid)
                     await mpc.shutdown()
@@ -580,7 +584,8 @@ class World:
                     self._begin_observed_session()       # the last party to get here resets the monitors
                 while self._arrived < self.m:
                     await asyncio.sleep(0)               # harness-level rendezvous between the sessions
-                mpc.threshold = self.t_main
+                if h[0] != 'restart':
+                    mpc.threshold = self.t_main
             if wrap:
                 await mpc.start()
                 r = await program(mpc, pid)
